@@ -1,9 +1,284 @@
+import RsMatterVerif.Model.SecureMsg
 import Driver.Util
-/-! Driver for C03: not built yet. -/
+/-! Driver for C03: replays the harness' session set-up, encodings and deliveries on
+`Model/SecureMsg` (ideal AEAD table filled with the cipher texts the real code produced) and
+evaluates the specification — *handed on only if authentic for that session; otherwise that
+session's state is untouched; what was encoded is what is decoded* — on the implementation's own
+answers. -/
 namespace Driver.C03
+open SecureMsg
 
-def run : IO UInt32 := do
-  IO.eprintln "C03: driver not built yet"
-  return 2
+def hexDigit (c : Char) : Nat :=
+  if '0' ≤ c ∧ c ≤ '9' then c.toNat - '0'.toNat
+  else if 'a' ≤ c ∧ c ≤ 'f' then c.toNat - 'a'.toNat + 10
+  else if 'A' ≤ c ∧ c ≤ 'F' then c.toNat - 'A'.toNat + 10
+  else 0
+
+def hexNat (s : String) : Nat := s.foldl (fun a c => a * 16 + hexDigit c) 0
+
+def unhex (s : String) : Bytes :=
+  if s = "-" then [] else
+  let rec go : List Char → Bytes
+    | a :: b :: r => (hexDigit a * 16 + hexDigit b) :: go r
+    | _ => []
+  go s.toList
+
+def hexChar (n : Nat) : Char := if n < 10 then Char.ofNat (48 + n) else Char.ofNat (87 + n)
+
+def toHexNat (n : Nat) : String :=
+  if n = 0 then "0" else
+  let rec go (fuel n : Nat) (acc : List Char) : List Char :=
+    match fuel with
+    | 0 => acc
+    | f + 1 => if n = 0 then acc else go f (n / 16) (hexChar (n % 16) :: acc)
+  String.ofList (go 20 n [])
+
+def hexBytes (b : Bytes) : String :=
+  if b.isEmpty then "-" else String.ofList (b.flatMap fun x => [hexChar (x / 16), hexChar (x % 16)])
+
+abbrev KV := List (String × String)
+
+def kvOf (ws : List String) : KV :=
+  ws.filterMap fun w =>
+    match w.splitOn "=" with
+    | k :: v :: rest => some (k, "=".intercalate (v :: rest))
+    | _ => none
+
+def KV.get (m : KV) (k : String) : Option String := (m.find? (·.1 = k)).map (·.2)
+def KV.num (m : KV) (k : String) : Nat := ((m.get k).bind String.toNat?).getD 0
+def KV.hexOpt (m : KV) (k : String) : Option Nat :=
+  match m.get k with
+  | none => none
+  | some "-" => none
+  | some v => some (hexNat v)
+
+def modeOf (s : String) : Mode :=
+  match s.toList with
+  | 'P' :: _ => .pase
+  | 'C' :: _ => .case
+  | 'G' :: r => .group ((String.ofList r).toNat?.getD 0)
+  | _ => .plain
+
+def exchsOf (s : String) : List Exch :=
+  (s.splitOn ",").filterMap fun e =>
+    let cs := e.toList
+    if cs.length < 2 then none else
+    let id := (String.ofList cs.dropLast).toNat?.getD 0
+    some { id := id, responder := cs.getLast? != some 'I' }
+
+def sessOf (m : KV) : Session :=
+  { addr := m.num "a", localNode := (m.hexOpt "ln").getD 0, peerNode := m.hexOpt "pn",
+    decKey := m.num "dk", encKey := m.num "ek", localSid := m.num "ls", peerSid := m.num "ps",
+    txCtr := m.num "tx" % 268435456, mode := modeOf ((m.get "m").getD "N"),
+    exchs := (match m.get "ex" with | some e => exchsOf e | none => []),
+    expired := m.num "expired" = 1 }
+
+def optStr : Option Nat → String
+  | some n => toString n
+  | none => "-"
+
+def exSum (e : Exch) : String :=
+  s!"{e.id}/{if e.responder then "R" else "I"}/{optStr e.retrans}/{optStr e.ack}"
+
+def sessSummary (s : Session) (hideTx : Bool) : String :=
+  let tx := if hideTx then "?" else toString s.txCtr
+  s!"rx={s.rx.max}:{s.rx.bitmap}:{if s.rx.synced then 1 else 0};tx={tx};ex=[{",".intercalate (s.exchs.map exSum)}]"
+
+def payloadOf (len seed : Nat) : Bytes :=
+  (List.range len).map fun i => (seed * 31 + i * 7 + (i / 256) * 13) % 256
+
+def hdrStr (h : PacketHdr) : String :=
+  let p := h.plain
+  let x := h.proto
+  s!"{p.flags}:{p.sessId}:{p.secFlags}:{p.ctr}:{toHexNat p.src}:{toHexNat p.dst}/{x.exchFlags}:{x.opcode}:{x.exchId}:{x.protoId}:{x.vendor}:{x.ack}"
+
+structure Dg where
+  name : String
+  bytes : Bytes
+  hdrLen : Nat
+
+structure St where
+  node : Node := []
+  /-- the sessions as installed (specification side: keys / peer ids never change) -/
+  decl : List Session := []
+  senders : List (String × Session) := []
+  dgs : List Dg := []
+  tbl : Aead := []
+  hashes : List String := []
+  sums : List String := []
+
+def modelSums (st : St) (n : Node) : List String :=
+  (List.range n.length).map fun i =>
+    match n[i]? with
+    | some s => sessSummary s (i ≥ st.decl.length)
+    | none => ""
+
+def flipBit (d : Bytes) (bit : Nat) : Option Bytes :=
+  if bit / 8 < d.length then
+    some (d.modify (bit / 8) (fun b => b ^^^ (1 <<< (bit % 8))))
+  else none
+
+def xorAt (d : Bytes) (off : Nat) (x : Bytes) : Bytes :=
+  (List.range d.length).zipWith (fun i b => if off ≤ i ∧ i < off + x.length then b ^^^ (x.getD (i - off) 0) else b) d
+
+def mutate (st : St) (d : Dg) (m : String) : Option Bytes :=
+  match m.splitOn ":" with
+  | ["none"] => some d.bytes
+  | ["flip", b] => b.toNat?.bind (flipBit d.bytes)
+  | ["trunc", n] => n.toNat?.map (d.bytes.take ·)
+  | ["ext", h] => some (d.bytes ++ unhex h)
+  | ["xor", off, h] => off.toNat?.map (xorAt d.bytes · (unhex h))
+  | ["hdr", other] =>
+    (st.dgs.find? (·.name = other)).map fun o => o.bytes.take o.hdrLen ++ d.bytes.drop d.hdrLen
+  | _ => none
+
+/-- the impl's answer split into (result + decoded part, hashes, changed summaries) -/
+def splitOut (out : String) : String × List String × List (Nat × String) :=
+  let ws := words out
+  let head := ws.filter fun w => !(w.startsWith "S=") && !(w.startsWith "C")
+  let hs := match ws.find? (·.startsWith "S=") with
+    | some w => let v := (w.drop 2).toString; if v = "-" then [] else v.splitOn ","
+    | none => []
+  let cs := ws.filterMap fun w =>
+    if w.startsWith "C" then
+      match ((w.drop 1).toString).splitOn "=" with
+      | i :: rest => i.toNat?.map (·, "=".intercalate rest)
+      | _ => none
+    else none
+  (" ".intercalate head, hs, cs)
+
+def applyChanges (sums : List String) (cs : List (Nat × String)) : List String :=
+  cs.foldl (fun acc (i, s) => if i < acc.length then acc.set i s else acc ++ [s]) sums
+
+/-- parse the decoded part `h=<plain>/<proto> p=<hex>` of an accepted delivery -/
+def parseAccepted (head : String) : Option (PlainHdr × ProtoHdr × Bytes) :=
+  let m := kvOf (words head)
+  match m.get "h", m.get "p" with
+  | some h, some p =>
+    match h.splitOn "/" with
+    | [a, b] =>
+      match a.splitOn ":", b.splitOn ":" with
+      | [pf, sid, sf, ctr, src, dst], [xf, op, xid, pid, vid, ack] =>
+        let n (s : String) := s.toNat?.getD 0
+        some ({ flags := n pf, sessId := n sid, secFlags := n sf, ctr := n ctr, src := hexNat src, dst := hexNat dst },
+              { exchFlags := n xf, opcode := n op, exchId := n xid, protoId := n pid, vendor := n vid, ack := n ack },
+              unhex p)
+      | _, _ => none
+    | _ => none
+  | _, _ => none
+
+def outcomeStr : Outcome → String
+  | .err e => s!"err:{e.name}"
+  | .ok _ nw h p => s!"ok:{if nw then "new" else "old"} h={hdrStr h} p={hexBytes p}"
+
+/-- The property's specification evaluated on the implementation's answer to one delivery.
+`dg` = the bytes delivered, `old/new` = state hashes before / after, `head` = result (+ decoded part). -/
+def oracle (st : St) (dg : Bytes) (head : String) (old new : List String) : Option String :=
+  let changed := (List.range new.length).filter fun i => old[i]? != new[i]?
+  let isSecure (i : Nat) : Bool := match st.decl[i]? with | some s => s.isEncrypted | none => false
+  let authentic (i : Nat) : Bool := match st.decl[i]? with | some s => authenticForB st.tbl s dg | none => false
+  if head.startsWith "panic" then some "panic while decoding a datagram" else
+  -- (1) a session for which the datagram is not authentic keeps its counters, exchanges and keys
+  match (List.range st.decl.length).find? (fun i => isSecure i && !authentic i && changed.contains i) with
+  | some i => some s!"state of secure session {i} changed by a datagram that is not authentic for it"
+  | none =>
+    if new.length < old.length then some "a session disappeared" else
+    if !head.startsWith "ok" then none else
+    -- (2) handed on: to exactly one session; if that is a secure one the datagram is authentic for it
+    --     and the decoded header fields and payload are the encoded ones
+    match changed with
+    | [i] =>
+      if !isSecure i then none else
+      if !authentic i then some s!"handed to secure session {i} although not authentic for it" else
+      match parseAccepted head, st.decl[i]? with
+      | some (pl, px, payload), some s =>
+        let okRec := st.tbl.any fun rec =>
+          rec.key == s.decKey && dg == rec.aad ++ rec.ct && rec.aad == pl.encode
+            && rec.pt == px.encode ++ payload
+        if okRec then none else some s!"decoded header/payload differ from what was encoded (session {i})"
+      | _, _ => some "accepted delivery without decoded header"
+    | [] => some "handed on but no session state moved (receive window not updated)"
+    | _ => some s!"handed on but several sessions changed: {changed}"
+
+def step (st : St) (line : String) : St × String :=
+  let (op, out) := splitArrow line
+  if out = "skip" then (st, "ok") else
+  match words op with
+  | "case" :: _ => ({}, "case")
+  | "s" :: rest =>
+    let s := sessOf (kvOf rest)
+    let st' := { st with node := st.node ++ [s], decl := st.decl ++ [s] }
+    match words out with
+    | ["ok", sum, h] =>
+      let st' := { st' with hashes := st.hashes ++ [(h.drop 1).toString], sums := st.sums ++ [sum] }
+      if sum = sessSummary s false then (st', "ok") else (st', s!"DIS {sessSummary s false}")
+    | _ => (st', s!"DIS ok {sessSummary s false}")
+  | "t" :: name :: rest =>
+    ({ st with senders := (name, sessOf (kvOf rest)) :: st.senders.filter (·.1 ≠ name) }, if out = "ok" then "ok" else "DIS ok")
+  | "x" :: name :: rest =>
+    let m := kvOf rest
+    match st.senders.find? (·.1 = (m.get "t").getD "") with
+    | none => (st, "DIS skip")
+    | some (tn, s) =>
+      let h0 : PacketHdr :=
+        { plain := { flags := m.num "pf", sessId := m.num "sid", secFlags := m.num "sf", ctr := m.num "ctr",
+                     src := (m.hexOpt "src").getD 0, dst := (m.hexOpt "dst").getD 0 },
+          proto := { exchFlags := m.num "xf", opcode := m.num "op", exchId := m.num "xid", protoId := m.num "pid",
+                     vendor := m.num "vid", ack := m.num "ack" } }
+      if !fromBits MSGFLAGS_ALL h0.plain.flags || !fromBits SECFLAGS_ALL h0.plain.secFlags
+          || !fromBits EXCHFLAGS_ALL h0.proto.exchFlags then
+        (st, if out = "err BadFlags" then "ok" else "DIS err BadFlags")
+      else
+      let pre : Except Err (PacketHdr × Session) :=
+        if m.get "k" = some "pre" then s.preSend h0 else .ok (h0, s)
+      match pre with
+      | .error e => (st, if out = s!"err {e.name}" then "ok" else s!"DIS err {e.name}")
+      | .ok (h, s') =>
+        let payload := payloadOf (m.num "pl") (m.num "ps")
+        let st := { st with senders := (tn, s') :: st.senders.filter (·.1 ≠ tn) }
+        match words out with
+        | ["dg", hx] =>
+          let d := unhex hx
+          let plainBytes := h.plain.encode
+          let ct := d.drop plainBytes.length
+          let (mdg, rec) := s'.encode h payload ct
+          let lenOk := match rec with
+            | some r => d.length = plainBytes.length + r.pt.length + TAG_LEN
+            | none => true
+          if mdg != d || !lenOk then
+            (st, s!"DIS dg {hexBytes plainBytes}.. len={plainBytes.length + (h.proto.encode ++ payload).length + (if rec.isSome then TAG_LEN else 0)}")
+          else
+            let dgRec : Dg := { name := name, bytes := d, hdrLen := plainBytes.length }
+            let st := { st with dgs := dgRec :: st.dgs.filter (·.name ≠ name) }
+            match rec with
+            | some r =>
+              -- ideal-AEAD assumption made explicit: cipher texts of distinct encryptions are distinct
+              if st.tbl.any (fun q => q.ct == r.ct && q != r) then (st, "BAD cipher text collision (ideal-AEAD assumption)")
+              else ({ st with tbl := r :: st.tbl }, "ok")
+            | none => (st, "ok")
+        | _ => (st, s!"DIS dg {hexBytes h.plain.encode}..")
+  | "r" :: name :: rest =>
+    let m := kvOf rest
+    match st.dgs.find? (·.name = name) with
+    | none => (st, "DIS skip")
+    | some d =>
+      match mutate st d ((m.get "m").getD "none") with
+      | none => (st, "DIS skip")
+      | some bytes =>
+        let (head, newHashes, cs) := splitOut out
+        let sums' := applyChanges st.sums cs
+        let (o, node') := receive st.tbl st.node (m.num "a") bytes
+        let ora := oracle st bytes head st.hashes newHashes
+        let msums := modelSums st node'
+        let st' := { st with node := node', hashes := newHashes, sums := sums' }
+        match ora with
+        | some why => (st', s!"ORA {why}")
+        | none =>
+          if outcomeStr o != head then (st', s!"DIS {outcomeStr o}")
+          else if msums != sums' then (st', s!"DIS state {msums}")
+          else (st', "ok")
+  | _ => (st, "BAD op")
+
+def run : IO UInt32 := Driver.runLoop ({} : St) step
 
 end Driver.C03
